@@ -2,7 +2,7 @@
 
 Tie (H): real histories.  Every case is a history of file edits/deletions and builds; the harness writes the
 files (kernel source k.okl and headers h1.h..h4.h whose #include lines -- quoted or angle-bracket form, both
-resolved through okl/include_paths -- and defined macro are given by the case), and runs EVERY build in a fresh process (drivers/C07.cpp) with one cache directory per history.  The
+resolved through okl/include_paths -- and defined macro are given by the case; a text may be written with a timestamp in the past `^o` or in the future `^f`), and runs EVERY build in a fresh process (drivers/C07.cpp) with one cache directory per history.  The
 observation of a build = the values the kernel computes (which encode the texts it was compiled from) and
 whether the compiler ran or a cached binary was loaded.  The extracted model (device::applyDependencyHash with
 fuel, build.json dependency records, binary reuse) must predict both; the extracted specification (what a
@@ -74,9 +74,12 @@ def parse_tok(t):
     if t[0] == "D":
         return ("D", int(t[1:]))
     if t[0] == "E":
+        when = ""
+        if "^" in t:
+            t, when = t.split("^", 1)
         e, c = t.index("="), t.index(":")
         incs = [int(x) for x in t[c + 1:].split(",") if x != ""]
-        return ("E", int(t[1:e]), int(t[e + 1:c]), incs)
+        return ("E", int(t[1:e]), int(t[e + 1:c]), incs, when)
     raise ValueError(t)
 
 
@@ -92,6 +95,7 @@ def run_history(exe, base, idx, line, mode="S"):
     os.makedirs(cache)
     env = C.lib_env(FLAV, cache_dir=cache)
     items = []
+    t0 = time.time()
     try:
         for t in line.split():
             try:
@@ -99,8 +103,14 @@ def run_history(exe, base, idx, line, mode="S"):
             except (ValueError, IndexError):
                 return "R BAD"
             if op[0] == "E":
-                _, p, val, incs = op
+                _, p, val, incs, when = op
                 open(fname(src, p), "w").write(root_text(incs, val) if p == 0 else header_text(incs, val))
+                # the property is about CONTENTS: the new text may arrive with an old timestamp (mv of a backup, cp -p,
+                # rsync -t, tar x: "^o", older than every build.json) or a future one ("^f")
+                if when == "o":
+                    os.utime(fname(src, p), (t0 - 10000 - len(items), t0 - 10000 - len(items)))
+                elif when == "f":
+                    os.utime(fname(src, p), (t0 + 10000, t0 + 10000))
             elif op[0] == "D":
                 try:
                     os.unlink(fname(src, op[1]))
@@ -167,7 +177,8 @@ class Gen:
         def edit(p, val, incs):
             files[p] = (val, list(incs))
             past[p].append((val, list(incs)))
-            toks.append("E%d=%d:%s" % (p, val, ",".join(map(str, incs))))
+            when = rng.choices(["", "^o", "^f"], [50, 40, 10])[0]     # timestamps do not follow edits
+            toks.append("E%d=%d:%s%s" % (p, val, ",".join(map(str, incs)), when))
 
         rincs = sorted(rng.sample(range(1, NH + 1), rng.randint(1, 3)))
         edit(0, self.number(len(rincs), 1), rincs)
